@@ -83,6 +83,16 @@ func parseAnswers(out string) []string {
 
 // Discharge proves the obligations of one function result.
 func Discharge(fr *FuncResult, dir string, batchMs, singleMs int, stats *SolveStats, keepFiles bool) {
+	// obligations decided without a solver keep their preset result
+	all := fr.Obls
+	var dyn []*Obligation
+	for _, o := range all {
+		if !o.Static {
+			dyn = append(dyn, o)
+		}
+	}
+	fr.Obls = dyn
+	defer func() { fr.Obls = all }()
 	if len(fr.Obls) == 0 {
 		return
 	}
@@ -108,6 +118,29 @@ func Discharge(fr *FuncResult, dir string, batchMs, singleMs int, stats *SolveSt
 	stats.Seconds[solvers[0].Name] += secs
 	stats.Queries += len(fr.Obls)
 	stats.mu.Unlock()
+	// many undecided answers from the first solver: one more batch on the second before going query by query
+	if len(ans) == len(fr.Obls) {
+		und := 0
+		for i, o := range fr.Obls {
+			if !o.Cover && ans[i] != "unsat" {
+				und++
+			}
+		}
+		if und > 3 {
+			out2, secs2 := runSolver(solvers[1], file, batchMs)
+			ans2 := parseAnswers(out2)
+			stats.mu.Lock()
+			stats.Seconds[solvers[1].Name] += secs2
+			stats.mu.Unlock()
+			if len(ans2) == len(fr.Obls) {
+				for i, o := range fr.Obls {
+					if !o.Cover && ans[i] != "unsat" && ans2[i] == "unsat" {
+						ans[i] = "unsat2"
+					}
+				}
+			}
+		}
+	}
 	setupErr := ""
 	if len(ans) != len(fr.Obls) {
 		// An error in the prelude/body shifts everything: fall back to single queries for all
@@ -141,6 +174,17 @@ func Discharge(fr *FuncResult, dir string, batchMs, singleMs int, stats *SolveSt
 				single(fr, o, base, i, singleMs, stats, false)
 			}
 			continue
+		}
+		if a == "unsat2" && o.Excl == "" {
+			o.Result = "proved"
+			o.Solver = solvers[1].Name
+			stats.mu.Lock()
+			stats.Wins[solvers[1].Name]++
+			stats.mu.Unlock()
+			continue
+		}
+		if a == "unsat2" {
+			a = "unknown"
 		}
 		if a == want && o.Excl == "" {
 			o.Result = "proved"
